@@ -1049,6 +1049,8 @@ func runTunnel(r *vh.Run, c tcase, budget *tunx.Budget) {
 		timing = "before"
 	case bDoneAtClose && A.Recv() == bAtClose:
 		timing = "after" // the peer's stream was finished and fully received
+	case bDoneAtClose && c.CloseMode == "unread":
+		timing = "after, with the end of it unread by the closer"
 	}
 	switch c.CloseMode {
 	case "half":
@@ -1069,7 +1071,7 @@ func runTunnel(r *vh.Run, c tcase, budget *tunx.Budget) {
 		sigEOF = "C04:eof-propagation:" + c.Closer + "-aborts"
 		sigRel = "C04:release:" + c.Closer + "-aborts"
 	}
-	sawEOS := w.await(sigEOF, fmt.Sprintf("%s finished sending and closed (%s close, %s the peer's stream); the other end, idle, has not observed end-of-stream (EOF or reset) at quiescence", c.Closer, c.CloseMode, timing),
+	sawEOS := w.await(sigEOF, fmt.Sprintf("%s finished sending and closed (%s close, %s the peer's stream); the other end has not observed end-of-stream (EOF or reset) at quiescence", c.Closer, c.CloseMode, timing),
 		func() bool { return B.Term() != 0 })
 	if sawEOS && !abortive { // completeness is demanded for orderly closes only
 		if got := B.Recv(); got != aFinal {
